@@ -150,6 +150,11 @@ func TestC01(t *testing.T) {
 			return neg
 		},
 		classify: func(id string, p *proggen.Prog, e *proggen.Expect) {
+			for _, td := range p.AllTypes() {
+				if td.DefOf != nil && td.Immutable != td.DefOf.Immutable {
+					ev.Class(id, "program with type D T where exactly one of D, T is @immutable")
+				}
+			}
 			p.Walk(func(si proggen.SiteInfo) {
 				for _, evn := range si.Site.Events() {
 					if evn.Cat != "IMM" {
